@@ -275,7 +275,8 @@ func init() {
 		// cfg = [VWMA period, SMA period] (two exported indicators; the constructor sets both to 20)
 		Cfgs: func(t bool) [][]float64 {
 			h := Hi(t, 3, 4)
-			return Box([]int{1, 1}, []int{h, h}, nil)
+			// only what the constructor documents: one period for both averages (DESIGN 15)
+			return Box([]int{1, 1}, []int{h, h}, func(v []int) bool { return v[0] == v[1] })
 		},
 		New: func(c []float64) strategy.Strategy {
 			s := strend.NewVwmaStrategy()
